@@ -4,7 +4,9 @@ Import ListNotations.
 From BT Require Import Base.Bytes Model.Keys Model.Decoder.
 From BTGen Require Consts.
 
-Inductive chunk := Chunk (bs : bytes) | ReadErr.
+(* a read returns bytes, or an error, or - io.Reader allows it - bytes TOGETHER with an error (ChunkErr): those bytes are
+   decoded like any other read's before the reader stops with the error *)
+Inductive chunk := Chunk (bs : bytes) | ReadErr | ChunkErr (bs : bytes).
 
 Inductive stop := StopErr | StopCancelled | StopScriptEnd | StopPanic | StopFuel.
 
@@ -52,6 +54,17 @@ Fixpoint reader_from (script : list chunk) (left : bytes) (sent : nat) (cancel :
   match script with
   | [] => {| rd_out := []; rd_left := left; rd_why := StopScriptEnd |}
   | ReadErr :: _ => {| rd_out := []; rd_left := left; rd_why := StopErr |}
+  | ChunkErr bs :: _ =>
+    let b := left ++ bs in
+    let more := Nat.eqb (length bs) buf_size in
+    let fin o l := {| rd_out := o; rd_left := l; rd_why := StopErr |} in
+    match inner (length b) b more sent cancel with
+    | IDone o _ => fin o []
+    | ILeft o _ r => fin o r
+    | ICancel o => {| rd_out := o; rd_left := []; rd_why := StopCancelled |}
+    | IPanic o => {| rd_out := o; rd_left := []; rd_why := StopPanic |}
+    | IFuel => {| rd_out := []; rd_left := []; rd_why := StopFuel |}
+    end
   | Chunk bs :: rest =>
     let b := left ++ bs in
     let more := Nat.eqb (length bs) buf_size in
